@@ -28,7 +28,7 @@ def prebuild():
 
     jobs = [lambda: build.driver("kernel_drv"), lambda: build.driver("hex_drv"), lambda: build.driver("vec_drv"),
             lambda: build.driver("conc_drv", extra=("-DCONC_SNAPSHOT",)), lambda: build.driver("conc_drv", flavor="tsan"),
-            lambda: build.driver("ascii_drv"), lambda: build.driver("prop_drv"), lambda: oc.driver("io_drv"), c15.driver]
+            lambda: build.driver("ascii_drv"), lambda: build.driver("prop_drv"), lambda: build.driver("status_drv"), lambda: build.driver("probes"), lambda: oc.driver("io_drv"), c15.driver]
 
     def one(j):
         try:
@@ -48,7 +48,7 @@ def main():
         log(lg[-3000:])
         log("[setup] full lake build failed; building the checks' targets one by one")
         props = sorted(p.stem for p in (LEAN / "OVM" / "Props").glob("C*.lean"))
-        for t in ["OVM.Props." + p for p in props] + ["ovmjudge", "tetjudge", "hexjudge", "ovmbjudge", "asciijudge", "vecjudge", "propjudge"]:
+        for t in ["OVM.Props." + p for p in props] + ["ovmjudge", "tetjudge", "hexjudge", "ovmbjudge", "asciijudge", "vecjudge", "propjudge", "statusjudge"]:
             ok1, lg1 = build.lake_build([t])
             if not ok1:
                 log("[setup] target %s does not build" % t)
